@@ -73,6 +73,23 @@ ConnPlan(k) ==
    shutdown |-> TRUE]
 ConnPlans == [k \in 1..NConn |-> ConnPlan(k)]
 
+(***************************************************************************)
+(* C17: every combination of the five mode switches x credential classes.  *)
+(***************************************************************************)
+ModeSet == { [nla |-> n, admin |-> a, blank |-> b, auto |-> g, hash |-> h, dom |-> d, usr |-> u, sel |-> s] :
+               n \in BOOLEAN, a \in BOOLEAN, b \in BOOLEAN, g \in BOOLEAN, h \in BOOLEAN,
+               d \in {Empty, Ascii, Astral}, u \in {Ascii, TwoByte}, s \in {1, 2} }
+ModeSeq == SetToSeq({ m \in ModeSet : m.sel = 1 \/ m.nla })
+ModePlan(k) == LET m == ModeSeq[k] IN
+  [cfg |-> [BaseCfg EXCEPT !.nla = m.nla, !.admin = m.admin, !.blank = m.blank, !.auto = m.auto, !.hash = m.hash,
+                           !.domain = m.dom, !.user = m.usr, !.password = Secret(k)],
+   srv |-> [BaseSrv EXCEPT !.reply = [kind |-> "rsp", sel |-> B4(m.sel), flags |-> 0], !.uid = 1001 + ((k * 37) % 60000),
+                           !.account = [domain |-> m.dom, user |-> m.usr, password |-> Secret(k)]]
+           @@ [blocks |-> [version |-> IF k % 2 = 0 THEN <<4, 0, 8, 0>> ELSE <<1, 0, 8, 0>>, core_opt |-> 2, with_security |-> TRUE, order |-> <<"core", "sec", "net">>],
+               licence |-> "valid", share |-> B4(66538), capv |-> 0, activations |-> 1, errinfo |-> FALSE],
+   inputs |-> << [api |-> "write", dev |-> "key", code |-> 30, down |-> TRUE] >>, shutdown |-> TRUE]
+ASSUME ndJsonSerialize(IOEnv.MODEPLANS, [k \in 1..Len(ModeSeq) |-> ModePlan(k)])
+
 ASSUME ndJsonSerialize(IOEnv.NEGOPLANS, NegoPlans)
 ASSUME ndJsonSerialize(IOEnv.CONNPLANS, ConnPlans)
 VARIABLE done
